@@ -589,8 +589,10 @@ def run_check(pid, tier, seed, workers=None, budget=None):
             "line-granularity schedules are admissible under Python semantics (PyPy, free-threaded, older CPython); evalbreaker-granularity ones are realisable on CPython 3.12 with the GIL",
         ],
     }
-    os.makedirs(os.path.join(ROOT, "evidence"), exist_ok=True)
-    with open(os.path.join(ROOT, "evidence", "%s.json" % pid), "w") as fh:
+    # self-tests that run the checks on a deliberately broken tree redirect their evidence
+    evdir = os.environ.get("VERIF_EVIDENCE_DIR") or os.path.join(ROOT, "evidence")
+    os.makedirs(evdir, exist_ok=True)
+    with open(os.path.join(evdir, "%s.json" % pid), "w") as fh:
         json.dump(ev, fh, indent=1, sort_keys=True, default=str)
     print("%s %s seed=%d: %d runs (%d/h), %d distinct non-trivial interleavings, %d violations, %d known, %.1fs" % (
         pid, tier, seed, runs, ev["coverage"]["runs_per_hour"], len(distinct), len(reported), len(known_seen) + len(known_hits), wall))
